@@ -1,9 +1,14 @@
 #!/bin/bash
-# Re-evaluates every seeded change under /verif/seeded against the current /repo HEAD and the current checks.
+# tools/eval_all_mutants.sh [lane] [lanes]
+# Re-evaluates every seeded change under /verif/seeded against the current /repo HEAD and the current checks
+# (lane k of n takes every n-th change, so several lanes can run side by side).
 cd /verif
-declare -A EXTRA=( [C01-2]="C14" [C03-1]="C02" [C03-2]="C18" [C10-2]="C14" [C11-1]="C14" [C11-2]="C12" [C14-1]="C10" [C18-1]="C03" [C09-1]="C12" [C05-1b]="C12" [C12-1b]="C05" [C02-1b]="C11" )
+LANE=${1:-0}; LANES=${2:-1}
+declare -A EXTRA=( [C01-2]="C14" [C03-1]="C02" [C03-2]="C18" [C10-2]="C14" [C11-1]="C14" [C11-2]="C12" [C14-1]="C10" [C18-1]="C03" [C09-1]="C12" [C05-1b]="C12" [C12-1b]="C05" [C02-1b]="C11" [C01-2b]="C18 C03" [C03-1c]="C02" [C19-1]="C05" )
+n=0
 for d in seeded/*/; do
+  n=$((n+1))
+  [ $((n % LANES)) -eq "$LANE" ] || continue
   id=$(basename "$d"); prop=${id%-*}; i=${id#*-}; suffix=${i//[0-9]/}; i=${i//[a-z]/}
-  rm -f "$d"/mutant*.diff "$d"/demo[0-9]_test.go "$d"/note[0-9].md
   SEED_SUFFIX=$suffix tools/eval_mutant.sh "$prop" "/verif/seeded/$id" "$i" $prop ${EXTRA[$id]:-} 2>&1 | tail -1
 done
